@@ -277,6 +277,64 @@ def overlap_reader_cases(ctx, rng, n):
             ctx.violation("overlap-reader-regions-differ-from-model(block-duration-windows)", {"case": case, "observed": got[:12], "expected": exp[:12]})
 
 
+def validator_fault_cases(ctx, rng, n):
+    """A user validator that fails once (a model that times out on one window).  Whether split() lets the exception through
+    or carries on, no region handed out before or after it may exceed floor(max_dur/w) windows."""
+    from auditok.util import AudioEnergyValidator
+
+    for _ in range(n):
+        rate, block = rng.choice(((100, 1), (100, 2), (1000, 10)))
+        w = block / rate
+        n_max = rng.randint(2, 8)
+        n_min = rng.randint(1, n_max)
+        n_sil = rng.randint(0, n_max - 1)
+        min_dur, max_dur, max_silence = (n_min - 0.5) * w, (n_max + 0.5) * w, ((n_sil + 0.5) * w if n_sil else 0)
+        pattern = [(rng.random() < 0.7, rng.choice((1, 2, n_max - 1, n_max, n_max + 1, 2 * n_max))) for _ in range(rng.randint(1, 6))]
+        pattern = [(a, max(1, b)) for a, b in pattern]
+        data = make_audio(pattern, block)
+        nwin = sum(b for _, b in pattern)
+        k = rng.choice((n_max - 1, n_max, n_max + 1, rng.randint(1, nwin)))
+        k = min(max(1, k), nwin)
+        exc_type = rng.choice((TimeoutError, OSError, ValueError, RuntimeError))
+        inner = AudioEnergyValidator(50, 2, 1)
+        state = {"calls": 0}
+
+        def flaky(win):
+            state["calls"] += 1
+            if state["calls"] == k:
+                e = exc_type("injected validator fault")
+                e.vf_injected = True
+                raise e
+            return inner.is_valid(win)
+
+        style = rng.choice(("bytes", "region-method", "reader"))
+        case = {"validator_fault_at_window": k, "exception": exc_type.__name__, "pattern": [[int(a), b] for a, b in pattern], "block": block, "rate": rate,
+                "durations": [min_dur, max_dur, max_silence], "model_counts": [n_min, n_max, n_sil], "style": style}
+        regions = []
+        try:
+            if style == "reader":
+                gen = auditok.split(AudioReader(data, block_dur=w, sampling_rate=rate, sample_width=2, channels=1), min_dur, max_dur, max_silence, validator=flaky)
+            elif style == "region-method":
+                gen = auditok.AudioRegion(data, rate, 2, 1).split(min_dur, max_dur, max_silence, analysis_window=w, validator=flaky)
+            else:
+                gen = auditok.split(data, min_dur, max_dur, max_silence, sr=rate, sw=2, ch=1, analysis_window=w, val=flaky)
+            for r in gen:
+                regions.append(r)
+            ctx.count("validator_faults_absorbed_by_split")
+        except Exception as exc:
+            if not getattr(exc, "vf_injected", False):
+                ctx.violation("exception:" + type(exc).__name__, {"case": case, "exception": repr(exc)[:200]})
+                continue
+            ctx.count("validator_faults_that_reached_the_caller")
+        ctx.case(("vfault", repr(case)), bool(regions))
+        ctx.count("validator_fault_cases")
+        for r in regions:
+            nw = -(-len(bytes(r)) // (block * 2))
+            if nw > n_max or r.duration > max_dur + 1e-9:
+                ctx.violation("region-longer-than-max_dur-after-a-validator-fault", {"case": case, "windows": nw, "max_windows": n_max, "duration": r.duration})
+                break
+
+
 def near_integer_small_counts(ctx, rng, n):
     """a handful of windows, durations that miss a whole number of windows by 1.2e-8 .. 5e-8 windows (12x-50x outside the 1e-9 rule),
     with analysis windows from 0.5 ms to 100 ms."""
@@ -334,6 +392,7 @@ def run_shard(ctx):
     conf = TIERS[ctx.tier]
     rng0 = ctx.rng("extra")
     overlap_reader_cases(ctx, rng0, 30 if ctx.tier == "quick" else 1500)
+    validator_fault_cases(ctx, ctx.rng("vfault"), 60 if ctx.tier == "quick" else 3000)
     large_quotient_cases(ctx, rng0, 6 if ctx.tier == "quick" else 200)
     near_integer_small_counts(ctx, rng0, 30 if ctx.tier == "quick" else 1500)
     # (a) accept / reject grid (exhaustive over the literal grid, partitioned between shards)
@@ -400,7 +459,7 @@ def inconclusive(merged, tier):
     c = merged["counters"]
     return [f"monitor never observed {k}" for k in
             ("accept_grid_accepted", "accept_grid_ValueError", "burst_cases", "burst_regions_observed",
-             "burst_style_bytes", "burst_style_reader", "burst_style_region", "bursts_with_a_shorter_final_window", "overlap_reader_regions", "large_quotient_cases", "near_integer_small_count_cases", "reader_with_conflicting_window_keyword", "accept_grid_spelling_bytes-aw", "crisp_burst_of_exactly_ceil(min_dur/w)",
+             "burst_style_bytes", "burst_style_reader", "burst_style_region", "bursts_with_a_shorter_final_window", "overlap_reader_regions", "validator_fault_cases", "large_quotient_cases", "near_integer_small_count_cases", "reader_with_conflicting_window_keyword", "accept_grid_spelling_bytes-aw", "crisp_burst_of_exactly_ceil(min_dur/w)",
              "crisp_burst_of_ceil(min_dur/w)-1", "reject_clause:window shorter than one sample",
              "reject_clause:min_dur needs more windows than max_dur allows",
              "reject_clause:max_silence not below max_dur in windows") if c.get(k, 0) == 0]
